@@ -936,9 +936,10 @@ def translate_file(src):
             cfg = f.run()
             chk = checks_of(f)
             rng = range_checks_of(f)
+            fg = field_guards_of(f)
             done.append({"name": f.name, "src": src, "line": f.line, "params": f.params, "blobs": f.blobs,
                          "outs": f.outs, "calls": f.calls, "cfg": cfg, "nconds": f.nconds,
-                         "static": n.get("storageClass") == "static", "checks": chk, "ranges": rng})
+                         "static": n.get("storageClass") == "static", "checks": chk, "ranges": rng, "fguards": fg})
         except Unhandled as e:
             bad.append("unhandled:%s:%s" % (n.get("name"), e))
         except (KeyError, IndexError, TypeError) as e:
@@ -1115,6 +1116,116 @@ def range_checks_of(f):
                     out.append((("other",), "several keys"))
             except No:
                 out.append((("other",), f.text(n["inner"][0])[:80]))
+    return out
+
+
+# --------------------------------------------------------------------------- C09: guards over small-integer fields inside buffers
+def field_guards_of(f):
+    """`if (COND) { …; return CONST; }` where COND contains comparisons of ONE field  p[index] / *p  (p a pointer
+    parameter) with integer constants, the field possibly under + / - of constants (C integer promotion: the arithmetic is
+    done in `int`, rendered over Int in Lean).  The field part of COND is the disjunction of the pure-field children of
+    the smallest (flattened) || / && node that contains every comparison of the field; any other arrangement is returned
+    as ('unrecognised', text).  -> [(field text, ir | ('unrecognised', …), class)]"""
+    ptrs = {p for p, t in f.params if is_pointer_type(t)}
+    out = []
+
+    def field_text(e):
+        e = strip(e)
+        if e["kind"] == "ArraySubscriptExpr":
+            b = lv_key(e["inner"][0])
+            if b in ptrs:
+                return f.text(e)
+        if e["kind"] == "UnaryOperator" and e["opcode"] == "*" and lv_key(e["inner"][0]) in ptrs:
+            return f.text(e)
+        return None
+
+    class No(Exception):
+        pass
+
+    def arith(e, fld):
+        e0 = e
+        e = strip(e)
+        c = int_const(e)
+        if c is not None:
+            return ("const", c)
+        t = field_text(e)
+        if t is not None:
+            fld.add(t)
+            return ("v",)
+        if e["kind"] == "BinaryOperator" and e["opcode"] in ("+", "-"):
+            return ("add" if e["opcode"] == "+" else "sub", arith(e["inner"][0], fld), arith(e["inner"][1], fld))
+        raise No()
+
+    def pure(c):
+        """pure-field formula or raise No; returns (ir, set of fields)"""
+        c = strip(c)
+        k = c["kind"]
+        fld = set()
+        if k == "BinaryOperator" and c["opcode"] in ("||", "&&"):
+            a, fa = pure(c["inner"][0])
+            b, fb = pure(c["inner"][1])
+            return ("or" if c["opcode"] == "||" else "and", a, b), fa | fb
+        if k == "UnaryOperator" and c["opcode"] == "!":
+            a, fa = pure(c["inner"][0])
+            return ("not", a), fa
+        if k == "BinaryOperator" and c["opcode"] in ("==", "!=", "<", "<=", ">", ">="):
+            a = arith(c["inner"][0], fld)
+            b = arith(c["inner"][1], fld)
+            if not fld:
+                raise No()
+            return ("cmp", c["opcode"], a, b), fld
+        raise No()
+
+    def mentions_field(c):
+        return any(field_text(m) is not None for m in walk(c))
+
+    def flatten(c, op):
+        c = strip(c)
+        if c["kind"] == "BinaryOperator" and c["opcode"] == op:
+            return flatten(c["inner"][0], op) + flatten(c["inner"][1], op)
+        return [c]
+
+    def project(c):
+        """field part of a condition reached through || / && only"""
+        c = strip(c)
+        try:
+            return pure(c)
+        except No:
+            pass
+        if c["kind"] == "BinaryOperator" and c["opcode"] in ("||", "&&"):
+            kids = flatten(c, c["opcode"])
+            with_f = [k for k in kids if mentions_field(k)]
+            if len(with_f) == 1:
+                return project(with_f[0])
+            if c["opcode"] == "||":
+                parts = [pure(k) for k in with_f]          # No propagates: unrecognised
+                ir, fl = parts[0]
+                for a, fa in parts[1:]:
+                    ir, fl = ("or", ir, a), fl | fa
+                return ir, fl
+        raise No()
+
+    def ret_const(n):
+        for m in walk(n):
+            if m["kind"] == "ReturnStmt" and m.get("inner"):
+                c = int_const(m["inner"][0])
+                if c:
+                    return c
+        return None
+    for n in walk(f.body):
+        if n["kind"] != "IfStmt" or len(n["inner"]) < 2 or not mentions_field(n["inner"][0]):
+            continue
+        cls = ret_const(n["inner"][1])
+        if not cls or any(m["kind"] == "IfStmt" for m in walk(n["inner"][1])):
+            continue
+        try:
+            ir, fl = project(n["inner"][0])
+            if len(fl) == 1:
+                out.append((sorted(fl)[0], ir, cls))
+            else:
+                out.append(("?", ("unrecognised", f.text(n["inner"][0])[:100]), cls))
+        except No:
+            out.append(("?", ("unrecognised", f.text(n["inner"][0])[:100]), cls))
     return out
 
 
